@@ -21,10 +21,14 @@ func init() {
 			shapes = append(shapes, tvInt("int64", 1<<63-1), tvInt("int64", -1<<63), tvUint("uint64", 1<<64-1), tvUint("uint64", 1<<63),
 				tvStr("9223372036854775807"), tvJSON("-9223372036854775808"), tvList(tvInt("int64", 1<<63-1), tvInt("int64", 5)),
 				tvSlice("[]int64", tvInt("int64", -1<<63), tvInt("int64", 1<<63-1)), tvFloat("float64", 9.3e18), tvFloat("float64", -9.3e18), tvStr("9223372036854775808"))
+			// strings that are not valid UTF-8, and the replacement character such bytes read as
+			shapes = append(shapes, tvStr("\xff"), tvStr("a\xfeb"), tvStr("\uFFFD"), tvSlice("[]string", tvStr("x"), tvStr("\xfe")), tvList(tvStr("\xc3"), tvInt("int", 1)), tvJSON("\xff"))
 			if tier == "thorough" {
 				shapes = append(shapes, scalarZoo()...)
 			}
 			docs := []eDoc{
+				{ID: 8, Cons: []eConj{{{F: 1, Inc: true, V: tvSlice("[]string", tvStr("\xff"), tvStr("k\xfe"))}}}},
+				{ID: 9, Cons: []eConj{{{F: 1, Inc: false, V: tvStr("\xfd")}, {F: 0, Inc: true, V: tvSlice("[]int", tvInt("int", 7))}}}},
 				{ID: 1, Cons: []eConj{{{F: 0, Inc: true, V: tvSlice("[]int", tvInt("int", 7), tvInt("int", 1))}, {F: 1, Inc: true, V: tvSlice("[]string", tvStr("abc"), tvStr("7"))}}}},
 				{ID: -2, Cons: []eConj{{{F: 2, Inc: true, Op: 3, V: tvSlice("[]int64", tvInt("int64", 0), tvInt("int64", 1000))}, {F: 0, Inc: false, V: tvSlice("[]int", tvInt("int", 3))}}}},
 				{ID: 3, Cons: []eConj{{{F: 4, Inc: true, V: tvSlice("[]int", tvInt("int", 7))}}, {}}},
@@ -92,7 +96,7 @@ func init() {
 					add(c)
 				}
 			}
-			rdocs := []eDoc{docs[0], {ID: -2, Cons: []eConj{{{F: 0, Inc: false, V: tvSlice("[]int", tvInt("int", 3))}}}}, {ID: 3, Cons: []eConj{{{F: 4, Inc: true, V: tvSlice("[]int", tvInt("int", 7))}}, {}}}}
+			rdocs := []eDoc{docs[0], docs[1], docs[2], {ID: -2, Cons: []eConj{{{F: 0, Inc: false, V: tvSlice("[]int", tvInt("int", 3))}}}}, {ID: 3, Cons: []eConj{{{F: 4, Inc: true, V: tvSlice("[]int", tvInt("int", 7))}}, {}}}}
 			for _, v := range shapes {
 				c := rCase{Fields: []rField{{F: 0, Cont: "default"}, {F: 1, Cont: "ac_matcher"}, {F: 4, Cont: "default", Parser: "number"}}, Docs: rdocs}
 				for _, f := range []int{0, 1, 4, 5} {
